@@ -3,6 +3,7 @@
 package c19
 
 import (
+	"bytes"
 	"errors"
 	"fmt"
 	"net/http"
@@ -11,6 +12,7 @@ import (
 	"strings"
 	"testing"
 
+	"github.com/quic-go/qpack"
 	"pgregory.net/rapid"
 
 	"github.com/refraction-networking/uquic/http3"
@@ -743,10 +745,16 @@ func handOnResponse(k *collector, rsp *http.Response, a *analysis) {
 // ---------------------------------------------------------------------------------------------
 // The check.
 
-// knownOnlySignature maps defect codes that have a dedicated finding signature.
 func acceptSig(code string) string { return "C19/accept/" + code }
 
-func checkPCase(c PCase, u *vf.Unit) *vf.Verdict {
+var endOfSectionCode = map[string]bool{"missing-method": true, "missing-path": true, "missing-authority": true, "missing-status": true,
+	"missing-scheme-extended-connect": true, "connect-path": true, "protocol-without-connect": true, "status-invalid": true}
+
+func checkPCase(c PCase, u *vf.Unit) *vf.Verdict { return checkPCaseWith(c, u, nil) }
+
+// checkPCaseWith judges one section; realFn, when given, is the decode function handed to the parser
+// instead of the synthetic one (it must yield c.Fields and then fail iff c.FailAt >= 0).
+func checkPCaseWith(c PCase, u *vf.Unit, realFn qpack.DecodeFunc) *vf.Verdict {
 	if c.Kind != "req" && c.Kind != "rsp" && c.Kind != "trl" {
 		return nil
 	}
@@ -763,6 +771,9 @@ func checkPCase(c PCase, u *vf.Unit) *vf.Verdict {
 		trl http.Header
 	)
 	fn := decodeFn(c.Fields, c.FailAt)
+	if realFn != nil {
+		fn = realFn
+	}
 	switch c.Kind {
 	case "req":
 		req, err = http3.VerifRequestFromDecodeFn(fn, c.Limit)
@@ -817,7 +828,7 @@ func checkPCase(c PCase, u *vf.Unit) *vf.Verdict {
 		if coreRegular(c.Kind, a) && !http3.VerifIsQPACKError(err) {
 			k.bad("C19/reject/error-kind", "decoding failed at field %d of an otherwise clean prefix, but the error is %T %q, not the QPACK error", c.FailAt, err, err)
 		}
-		if http3.VerifIsQPACKError(err) && !errors.Is(err, errInjectedDecode) {
+		if http3.VerifIsQPACKError(err) && realFn == nil && !errors.Is(err, errInjectedDecode) {
 			k.bad("C19/reject/error-kind", "QPACK error does not wrap the decoder's error: %v", err)
 		}
 		return k.first
@@ -825,7 +836,13 @@ func checkPCase(c PCase, u *vf.Unit) *vf.Verdict {
 
 	if accepted {
 		if len(codes) > 0 {
+			// with a repeated pseudo field it is ambiguous which value the end-of-section rules apply to;
+			// the repetition itself is the defect to report
+			ambiguous := a.defects["pseudo-duplicate"] || a.defects["pseudo-empty-value"]
 			for _, code := range codes {
+				if ambiguous && endOfSectionCode[code] {
+					continue
+				}
 				k.bad(acceptSig(code), "%s section accepted (limit %d, size %d) with defect %q (all defects %v): %s", c.Kind, c.Limit, a.size, code, codes, fieldsString(c.Fields))
 			}
 			return k.first
@@ -1018,7 +1035,75 @@ func FuzzFieldSection(f *testing.F) {
 		u.Case()
 		v := vf.Guard("parser-fuzz", func() *vf.Verdict { return checkPCase(c, u) })
 		if v != nil {
-			if u.Report(v, c) {
+			// stored in the parser-model format so that the case replays through TestParserModel
+			if vf.U("parser-model").Report(v, c) {
+				t.Fatalf("VIOLATION %s: %s", v.Sig, v.Detail)
+			}
+		}
+	})
+}
+
+// FuzzQPACKSection feeds raw QPACK field sections through the real qpack decoder into the parsers, as
+// server_conn.go / stream.go do. The decoder (a dependency, not code under test) is run twice: once to
+// learn which fields it yields and whether it fails, once inside the parser.
+// Encoding: byte 0 kind (mod 3); byte 1 limit mode (as in FuzzFieldSection); rest: the header block.
+func FuzzQPACKSection(f *testing.F) {
+	u := vf.U("qpack-fuzz")
+	enc := func(kind, limitMode byte, fields []F) []byte {
+		var buf bytes.Buffer
+		e := qpack.NewEncoder(&buf)
+		for _, fl := range fields {
+			_ = e.WriteField(qpack.HeaderField{Name: string(fl.N), Value: string(fl.V)})
+		}
+		return append([]byte{kind, limitMode}, buf.Bytes()...)
+	}
+	seeds := [][]F{
+		{{":method", "GET"}, {":scheme", "https"}, {":authority", "example.com"}, {":path", "/"}, {"accept", "v"}},
+		{{":method", "POST"}, {":scheme", "https"}, {":authority", "example.com"}, {":path", "/a?b=c"}, {"content-length", "5"}, {"cookie", "a=b"}, {"cookie", "v"}},
+		{{":method", "CONNECT"}, {":authority", "example.com:443"}},
+		{{":status", "200"}, {"content-length", "42"}, {"trailer", "x-t"}},
+		{{"x-t", "v"}},
+		{{":method", "GET"}, {":scheme", "https"}, {":authority", "example.com"}, {":path", "/"}, {"X-Custom", "v"}, {"x-a", "a\r\nb"}},
+		{{":status", "200"}, {":status", "200"}, {"connection", "close"}, {"te", "gzip"}},
+	}
+	for i, s := range seeds {
+		f.Add(enc(byte(i%3), 0xff, s))
+		f.Add(enc(byte(i%3), 0x20, s))
+		b := enc(byte(i%3), 0xff, s)
+		f.Add(b[:len(b)-1]) // truncated block
+	}
+	f.Add([]byte{0, 0xff, 0, 0, 0xff})
+	f.Fuzz(func(t *testing.T, data []byte) {
+		if len(data) < 2 {
+			return
+		}
+		c := PCase{FailAt: -1, Kind: []string{"req", "rsp", "trl"}[int(data[0])%3]}
+		limitMode := data[1]
+		block := append([]byte(nil), data[2:]...)
+		fields, derr := decodeBlock(block)
+		if len(fields) > 64 {
+			return
+		}
+		c.Fields = fields
+		if derr != nil {
+			c.FailAt = len(fields)
+		}
+		size := fieldListSize(c.Fields)
+		switch {
+		case limitMode < 0x40:
+			c.Limit = max(0, size+int(limitMode)-0x20)
+		case limitMode < 0x50:
+			c.Limit = int(limitMode-0x40) * 16
+		default:
+			c.Limit = 1 << 20
+		}
+		u.Case()
+		v := vf.Guard("qpack-fuzz", func() *vf.Verdict {
+			return checkPCaseWith(c, u, qpack.NewDecoder().Decode(block))
+		})
+		if v != nil {
+			// the failing case is stored in the parser-model format so that it replays without the decoder
+			if vf.U("parser-model").Report(v, c) {
 				t.Fatalf("VIOLATION %s: %s", v.Sig, v.Detail)
 			}
 		}
